@@ -194,6 +194,55 @@ class MayRaise:
     def is_sub(self, exc: str, of: str) -> bool:
         return self.exc.is_subclass(exc, of)
 
+    def undefined_names(self, fi: FuncInfo) -> frozenset[str]:
+        """names a function reads as globals that neither its module binds (assignment, import, def, class - at module
+        level, on any branch) nor builtins provides: reading one raises NameError (symbol tables of the compiler, not
+        a text search; enclosing function scopes are resolved by the compiler as free variables)"""
+        import builtins
+        import symtable
+        memo = self.__dict__.setdefault("_undef_memo", {})
+        mod = fi.module
+        if mod.name not in memo:
+            per: dict[tuple[str, int], frozenset[str]] = {}
+            try:
+                top = symtable.symtable(mod.source, mod.relpath, "exec")
+            except SyntaxError:
+                top = None
+            if top is not None:
+                bound = {sy.get_name() for sy in top.get_symbols() if sy.is_assigned() or sy.is_imported() or sy.is_namespace()}
+                # `global x` assignments inside functions bind module names too
+                def collect(t) -> None:
+                    for ch in t.get_children():
+                        for sy in ch.get_symbols():
+                            if sy.is_declared_global() and sy.is_assigned():
+                                bound.add(sy.get_name())
+                        collect(ch)
+                collect(top)
+                known = bound | set(dir(builtins)) | {"__file__", "__name__", "__doc__", "__package__", "__spec__", "__loader__", "__builtins__", "__class__", "__debug__"}
+
+                def walk(t) -> None:
+                    for ch in t.get_children():
+                        if ch.get_type() == "function":
+                            und = frozenset(sy.get_name() for sy in ch.get_symbols() if sy.is_referenced() and sy.is_global() and sy.get_name() not in known)
+                            # nested scopes (comprehensions, lambdas) read through to the same globals
+                            stack = list(ch.get_children())
+                            while stack:
+                                g = stack.pop()
+                                if g.get_type() == "function" and g.get_name() in ("listcomp", "genexpr", "setcomp", "dictcomp", "lambda"):
+                                    und |= frozenset(sy.get_name() for sy in g.get_symbols() if sy.is_referenced() and sy.is_global() and sy.get_name() not in known)
+                                    stack.extend(g.get_children())
+                            per[(ch.get_name(), ch.get_lineno())] = und
+                        walk(ch)
+                walk(top)
+            memo[mod.name] = per
+        per = memo[mod.name]
+        ln = fi.node.lineno
+        # the compiler reports the line of `def`; decorators shift ast's lineno on some versions - try both
+        for key in ((fi.name, ln), (fi.name, min([ln] + [d.lineno for d in fi.node.decorator_list]))):
+            if key in per:
+                return per[key]
+        return frozenset()
+
     def local_defs(self, fi: FuncInfo) -> tuple[dict[str, ast.AST], set[str]]:
         """(locals with exactly one binding, a plain assignment of a call-free or any expression -> that expression;
         all other locals)"""
@@ -270,6 +319,7 @@ class _FuncAnalysis:
         rebound = {t.id for n in walk_local(fi.node) for t in (ast.walk(n) if isinstance(n, (ast.Assign, ast.AugAssign, ast.AnnAssign, ast.For, ast.NamedExpr, ast.With, ast.AsyncWith)) else ()) if isinstance(t, ast.Name) and isinstance(t.ctx, ast.Store)}
         self.argkinds = {k: v for k, v in (argkinds or {}).items() if k not in rebound}
         self.taint = {k for k, v in (argkinds or {}).items() if UNTYPED in v}
+        self.undefined = mr.undefined_names(fi)
         self.repo = mr.repo
         self.mod = fi.module
         self.cfg, self.mf, self.owner = mr.cfg_facts(fi)
@@ -611,7 +661,11 @@ class _FuncAnalysis:
     def expr(self, e: ast.AST | None, local: tuple = ()) -> set[Esc]:
         if e is None:
             return set()
-        if isinstance(e, (ast.Constant, ast.Name)):
+        if isinstance(e, ast.Name):
+            if self.undefined and isinstance(e.ctx, ast.Load) and e.id in self.undefined:
+                return self.site([("NameError", f"`{e.id}` is bound neither in this function, nor at module level, nor by builtins")], e, None)
+            return set()
+        if isinstance(e, ast.Constant):
             return set()
         if isinstance(e, ast.Lambda):
             return set()
